@@ -56,6 +56,16 @@ ListsTfQ == {<<>>, <<1, 2>>, <<4, 2, 1>>}
 TimeListsTfQ == {<<>>, <<0, 1, 3>>}
 TlListsTfQ == {<<1>>, <<1, 2>>, <<2, 1, 2>>}
 OpsTfQ == {"TrkNew", "TlNew", "TlSave", "TlLoad", "TrkLoad", "TrkSave"}
+\* the whole pipeline: images -> emulsions / time courses -> tracks -> files
+ImagesA == << <<0, 1, 1, 0, 0, 1, 0, 0>>, <<0, 0, 1, 1, 0, 1, 1, 0>>, <<0, 0, 0, 0, 0, 0, 0, 0>>, <<1, 1, 1, 0, 0, 0, 0, 1>> >>
+ImgListsA == {<<1, 2>>, <<1, 3, 2>>, <<4, 1>>, <<3>>}
+NoImages == <<>>
+ValsSys == <<S1(1, 0)>>
+WidthsA == {Neg1, 2}
+NoWidths == {Neg1}
+OpsSysQ == {"TcFromStorage", "TlFromTc", "TlSave", "TlLoad", "TcSave", "TcLoad", "EmLocate"}
+ImgListsQ == {<<1, 2>>, <<4, 3, 1>>}
+OpsSys == {"EmLocate", "TcFromStorage", "TlFromTc", "TlSave", "TlLoad", "TcSave", "TcLoad", "TcIndex", "TrkIndex"}
 TlListsA == {<<>>, <<1>>, <<1, 2>>, <<2, 1, 2>>}
 MinDursA == {Neg1, 0, 2}
 =============================================================================
